@@ -228,8 +228,10 @@ impl Shape {
     /// last batch starts beyond the end of a bitmap that stops early (trailing NULLs)
     pub fn bitmap_shorter_than_stream_offset(&self, batch_size: usize) -> bool {
         match self.bitmap_bytes {
-            Some(l) if self.len > batch_size => {
-                let kmax = self.len.div_ceil(batch_size) - 1;
+            Some(l) if self.len >= batch_size => {
+                // batches 0 ..= len / batch_size are executed (one more than needed when the length
+                // is a multiple of the batch size)
+                let kmax = self.len / batch_size;
                 (kmax * batch_size).div_ceil(8) > l
             }
             _ => false,
